@@ -11,9 +11,13 @@ from .match import m_arrcall
 
 
 def _is_vmapped_qr(t: T) -> Optional[T]:
-    """vmap(jnp.linalg.qr)(X) -> X"""
+    """vmap(jnp.linalg.qr)(X) -> X;  jnp.linalg.qr(X) on the whole stack (the primitive batches over leading axes) -> X"""
     vm = match_vmap(t) if t.op == "call" else None
     if vm is None:
+        if t.op == "call" and (func_name(t) or "").endswith("linalg.qr") and (func_name(t) or "").startswith(("jax.", "numpy.")):
+            _, pos_, kws_ = call_parts(t)
+            if len(pos_) == 1 and not any(k_ != "mode" for k_ in kws_):
+                return pos_[0]
         return None
     f, in_axes, args = vm
     if f.op == "name" and f.args[0].endswith("linalg.qr") and len(args) == 1:
@@ -147,14 +151,54 @@ def _magnitude_only(ev: Evaluator, t: T, fr=None) -> Optional[str]:
     return None
 
 
+def _rephased_q_plain_r(ev: Evaluator, q: T, fr=None) -> Optional[str]:
+    """q = vmap(F)(X)[0] with F(x) = (qr(x)[0] * <something built from qr(x)[1]>, qr(x)[1]): the columns of Q are rescaled
+    by phases of R's diagonal but R itself is returned unchanged.  Returns a description, None if not of that form."""
+    q = strip_wrappers(q)
+    if not (q.op == "getitem" and is_const(q.args[1], 0)):
+        return None
+    vm = match_vmap(q.args[0]) if q.args[0].op == "call" else None
+    if vm is None or len(vm[2]) != 1:
+        return None
+    f = vm[0]
+    x = sym("§det")
+    body = None
+    try:
+        if f.op == "closure":
+            body = ev.open_closure(f, [x])
+        elif f.op in ("fn", "attr"):
+            cands = ev.resolve_callees(f, fr)
+            if cands and len(cands) == 1 and fr is not None:
+                body = ev.inline_function(fr, f, cands[0][0], cands[0][1], [x], [], 0)
+    except Exception:  # noqa
+        body = None
+    if body is None:
+        return None
+    body = strip_wrappers(body)
+    if body.op != "tuple" or len(body.args) != 2:
+        return None
+    qq, rr = strip_wrappers(body.args[0]), strip_wrappers(body.args[1])
+    if not (rr.op == "getitem" and is_const(rr.args[1], 1) and rr.args[0].op == "call" and
+            (func_name(rr.args[0]) or "").endswith("linalg.qr")):
+        return None
+    q0 = getitem(rr.args[0], const(0))
+    if qq is q0 or not any(y is q0 for y in subterms(qq)):
+        return None
+    if qq.op == "binop" and qq.args[0] in ("*", "/") and any(y is rr for y in subterms(qq)):
+        return f"Q rescaled column by column with a factor built from diag(R) ({show(qq, maxdepth=2)[:50]})"
+    return None
+
+
 def pair3(ctx, fi: FuncInfo) -> int:
     """qr_vmap / qr_vmap_uhf: returned walkers[s] == Q of qr(walkers[s]) and norm[s] ==
     prod(diag(R)) of the *same* factorisation."""
     ev = Evaluator(ctx.p)
+    # private helpers of the module (one factorisation returning (Q, det R)) are read in place
+    ev.inline_policy = lambda callee, rc, fr_: callee.cls is None and callee.module == fi.module and callee is not fi
     fr = ev.eval_function(fi)
     R = ev.result(fr)
     if R.op != "tuple" or len(R.args) != 2:
-        ctx.ob("PAIR-3", f"{fi.qualname}: returns (Q, norm factors)", False, "unmodelled return", fi)
+        ctx.rep.note(f"{fi.qualname}: the result is not a (Q, norm factors) pair this rule can read; PAIR-3 not applied")
         return 1
     W, N = strip_wrappers(R.args[0]), strip_wrappers(R.args[1])
     wparam = sym([p.name for p in fi.params][0])
@@ -237,7 +281,25 @@ def pair3(ctx, fi: FuncInfo) -> int:
             else:
                 why = f"Q{tag} is factorised from {show(inp, maxdepth=2)}, not from the input block"
         else:
-            why = f"returned walkers{tag} are not element 0 of vmap(jnp.linalg.qr)(...)"
+            # another way of writing the orthonormalisation (a helper that is not read in place, a different factorisation
+            # routine): nothing identified, nothing judged
+            has_fact = any(x.op == "call" and (func_name(x) or "").split(".")[-1] in ("qr", "cholesky", "svd", "eigh", "polar", "orth")
+                           for x in subterms(q)) or any(
+                x.op == "call" and match_vmap(x) is not None for x in subterms(q))
+            reph = _rephased_q_plain_r(ev, q, fr)
+            if reph is not None:
+                n += 1
+                ctx.ob("PAIR-3", f"{fi.qualname}: Q and norm factor of one factorisation{tag}", False,
+                       f"the returned Q{tag} is {reph}, while the R handed on for the norm factor is the unmodified factor of "
+                       f"that factorisation: the phases moved into Q are still counted in prod(diag R)", fi)
+                continue
+            if has_fact:
+                ctx.rep.note(f"{fi.qualname}: returned walkers{tag} are not recognisably element 0 of a (vmapped / batched) "
+                             f"jnp.linalg.qr call; PAIR-3 not applied")
+                n += 1
+                continue
+            # positive witness: what is handed back as the orthonormalised block does not come out of any factorisation
+            why = f"returned walkers{tag} ({show(q, maxdepth=2)[:60]}) are not the Q factor of a factorisation of the input block"
         n += 1
         ctx.ob("PAIR-3", f"{fi.qualname}: Q and norm factor of one factorisation{tag}", ok, why, fi)
     return n
